@@ -3,6 +3,7 @@
    run of tools/props/C14.py on every check.  Proofs: Rtr/SendBase.v, Rtr/SendProofs.v, Rtr/SendSites.v. *)
 From RtrV Require Import Base.CSem Gen.Generated Rtr.RtrModel Rtr.RelFrame Rtr.RecvBase Rtr.SendBase Rtr.RecvProofs
      Rtr.SendProofs Rtr.SendSites.
+From RtrV Require Rtr.SendExamples.   (* concrete runs: the hypotheses below are satisfiable, the conclusions exact *)
 Local Open Scope Z_scope.
 
 (* ---- (1) what the model builds ---- *)
